@@ -7,6 +7,7 @@ from .. import chain
 from ..flow import is_call_to, origin, reaching_def
 from ..guard import closed_world
 from ..model import PKG, Program, construct_key, dotted, norm, parent
+from ..callgraph import own_nodes
 from ..report import Finding, Result
 
 EXPLANATION = (
@@ -33,9 +34,10 @@ def run(prog: Program, res: Result) -> None:
     res.rules = ["R1 objective_function referenced only by Task.solve on the corrected position",
                  "R2 .solve referenced only by OptimizationAbstract._fcn",
                  "R3 _fcn referenced only by OptimizationAbstract._init_agent",
-                 "R4 correct_solution corrects every coordinate (chain shape)"]
+                 "R4 correct_solution corrects every coordinate (chain shape)",
+                 "R5 an unguarded quotient by a spread of costs (0/0 = NaN on a plateau) does not flow into an evaluated position"]
     res.undecided = ["finiteness (NaN/inf) of the coordinates handed to the objective: np.clip propagates NaN; numeric, "
-                     "out of reach of a structural rule",
+                     "out of reach of a structural rule except the unguarded cost-spread quotients of R5",
                      "membership delivered by each Variable.correct (C13)"]
     closed_world(prog, res)
     solve_q = f"{PKG}.models.Task.solve"
@@ -110,7 +112,124 @@ def run(prog: Program, res: Result) -> None:
     chain.no_task_subclass_overrides(prog, res, P)
     chain.check_chain_pure(prog, res, P)
     _variable_domain_obligations(prog, res, P)
+    _degenerate_spread(prog, res, P)
 
+
+
+def _degenerate_spread(prog: Program, res: Result, P: str) -> None:
+    """R5 (the one structural slice of the finiteness clause): a quotient whose denominator is the *spread of costs*
+    (`worst - best`, `max(costs) - min(costs)`, ..) with no additive guard (`+ self.EPS`) and no equality test is 0/0 = NaN
+    (numpy: a warning, not an exception) as soon as every agent has the same cost - a plateau, an integer-valued objective, a
+    converged run.  np.clip keeps NaN, so when that quotient flows into a position handed to `_init_agent`, the objective is
+    called with NaN coordinates.  The tree's idiom is `.. / (worst - best + self.EPS)` (5 sites) or an explicit equality
+    test (InvasiveWeed); sites whose quotient never reaches a position (GerminalCenter's life signal) are not reported."""
+    from ..sem import path_conditions
+    from ..flow import store_sites
+    n_spread = n_guarded = 0
+    for fi in prog.all_functions():
+        if fi.cls is None or not prog.is_subclass(fi.cls, ABSTRACT) or fi.outer is not None:
+            continue
+        scopes = [fi]
+        i = 0
+        while i < len(scopes):
+            scopes.extend(scopes[i].nested.values())
+            i += 1
+
+        def single_def(name):
+            vals = []
+            for sc in scopes:
+                for (_st, v, k) in store_sites(sc.node, name):
+                    vals.append((v, k))
+            if len(vals) == 1 and vals[0][1] == "assign":
+                return vals[0][0]
+            return None
+
+        def costy(e, d=3) -> bool:
+            if d <= 0 or e is None:
+                return False
+            for x in ast.walk(e):
+                if isinstance(x, ast.Attribute) and x.attr == "cost":
+                    return True
+                if isinstance(x, ast.Name) and isinstance(x.ctx, ast.Load):
+                    v = single_def(x.id)
+                    if v is not None and v is not e and costy(v, d - 1):
+                        return True
+            return False
+
+        quotients = []
+        for sc in scopes:
+            for n in own_nodes(sc):
+                if not (isinstance(n, ast.BinOp) and isinstance(n.op, ast.Div)):
+                    continue
+                den = n.right
+                if isinstance(den, ast.Name):
+                    v = single_def(den.id)
+                    den = v if v is not None else den
+                if not (isinstance(den, ast.BinOp) and isinstance(den.op, ast.Sub) and costy(den.left) and costy(den.right)):
+                    continue
+                n_spread += 1
+                guarded = False
+                lt, rt = norm(den.left), norm(den.right)
+                for (t, pol) in path_conditions(sc.node, n):
+                    tt = norm(t)
+                    if lt in tt and rt in tt and (("==" in tt and not pol) or ("!=" in tt and pol)):
+                        guarded = True
+                if guarded:
+                    n_guarded += 1
+                    continue
+                quotients.append((sc, n, den))
+        if not quotients:
+            continue
+        # taint: locals (of the method and its closures) computed from an unguarded spread quotient
+        for (sc0, q, den) in quotients:
+            tainted = set()
+
+            def carries(e) -> bool:
+                return any(x is q or (isinstance(x, ast.Name) and isinstance(x.ctx, ast.Load) and x.id in tainted)
+                           for x in ast.walk(e))
+            changed = True
+            while changed:
+                changed = False
+                for sc in scopes:
+                    for n in own_nodes(sc):
+                        tgt = val = None
+                        if isinstance(n, ast.Assign) and len(n.targets) == 1:
+                            tgt, val = n.targets[0], n.value
+                        elif isinstance(n, ast.AugAssign):
+                            tgt, val = n.target, n.value
+                        if tgt is None or not carries(val):
+                            continue
+                        base = tgt
+                        while isinstance(base, ast.Subscript):       # x[i] = ..: the array x; a field store taints nothing else
+                            base = base.value
+                        names = [base.id] if isinstance(base, ast.Name) else \
+                            [x.id for x in ast.walk(tgt) if isinstance(x, ast.Name)] if isinstance(tgt, (ast.Tuple, ast.List)) else []
+                        for nm in names:
+                            if nm not in tainted and nm != "self":
+                                tainted.add(nm)
+                                changed = True
+            if __import__('os').environ.get('PVLINT_DEBUG_TAINT'):
+                print('TAINTED', sorted(tainted), norm(q, 60))
+            sink = None
+            for sc in scopes:
+                for n in own_nodes(sc):
+                    if isinstance(n, ast.Call) and dotted(n.func) in ("self._init_agent", "self._task.correct_solution", "self._fcn"):
+                        pos_args = list(n.args[:1]) + [k.value for k in n.keywords if k.arg in ("position", "solution", "x")]
+                        if any(carries(a) for a in pos_args):
+                            sink = n
+                            break
+                if sink is not None:
+                    break
+            key = construct_key(prog, q, sc0.module)
+            res.ob(sink is None, f"{sc0.module.relpath}:{q.lineno} spread quotient `{norm(q, 50)}` does not reach a position" if sink is None else None, key)
+            if sink is not None:
+                res.add(Finding(P, "C05.R5-degenerate-spread-reaches-objective", key, f"{sc0.module.relpath}:{q.lineno}",
+                                f"`{norm(q, 70)}` in {fi.qualname}: the denominator `{norm(den, 40)}` is a spread of costs without the "
+                                f"`+ self.EPS` guard (or an equality test) used elsewhere in the package; when all agents have the same "
+                                f"cost it is 0/0 = NaN, the value flows into `{norm(sink, 60)}` and np.clip keeps NaN, so the "
+                                f"objective is evaluated at NaN coordinates"))
+    res.count("cost-spread-quotients", n_spread)
+    res.count("cost-spread-quotients-guarded-by-test", n_guarded)
 
 
 def _variable_domain_obligations(prog: Program, res: Result, P: str) -> None:
@@ -134,7 +253,12 @@ from ..selftest import V, run_battery  # noqa: E402
 _W = "pyvolutionary/whales/whales_optimization.py"
 _M = "pyvolutionary/models.py"
 _A = "pyvolutionary/abstract.py"
+_EV = "pyvolutionary/energy_valley/energy_valley_optimization.py"
 VARIANTS = [
+    V("spread-guard-dropped-energy-valley", _EV, "            sl = (cost_list[idx] - best_cost) / (worst_cost - best_cost + self.EPS)",
+      "            sl = (cost_list[idx] - best_cost) / (worst_cost - best_cost)", "C05.R5"),
+    V("twin-spread-guard-by-test", _EV, "            sl = (cost_list[idx] - best_cost) / (worst_cost - best_cost + self.EPS)",
+      "            sl = 0.5 if worst_cost == best_cost else (cost_list[idx] - best_cost) / (worst_cost - best_cost)", None),
     V("optimizer-precheck-calls-objective", _W,
       "            agent = Whale(**self._init_agent(position).model_dump())\n",
       "            if self._task.objective_function(position.tolist()) > 1e9:\n                return whale\n"
